@@ -2,15 +2,8 @@
 # one-off build after a fresh restore (offline): translator output, Lean library, model driver
 set -e
 cd "$(dirname "$0")"
-if [ -f tools/py2lean.py ]; then
-  /venv/bin/python tools/py2lean.py --repo /repo --out lean/PGM/Generated || true
-  /venv/bin/python tools/py2flow.py --repo /repo --out lean/PGM/Generated || true
-  /venv/bin/python tools/py2dom.py --repo /repo --out lean/PGM/Generated || true
-  /venv/bin/python tools/py2cv.py --repo /repo --out lean/PGM/Generated || true
-  /venv/bin/python tools/py2factor.py --repo /repo --out lean/PGM/Generated || true
-  /venv/bin/python tools/py2total.py --repo /repo --out lean/PGM/Generated || true
-  /venv/bin/python tools/py2gm.py --repo /repo --out lean/PGM/Generated || true
-  /venv/bin/python tools/py2inf.py --repo /repo --out lean/PGM/Generated || true
-fi
+for t in tools/py2*.py; do
+  /venv/bin/python "$t" --repo /repo --out lean/PGM/Generated || true
+done
 cd lean
 lake build PGM pgmdriver pgmgen
